@@ -1,5 +1,5 @@
 ---- MODULE MC_Trace_Log ----
 EXTENDS Trace_Log
 ShAll == {[n |-> 1, kind |-> "ok"], [n |-> 2, kind |-> "ok"], [n |-> 1, kind |-> "neglod"], [n |-> 1, kind |-> "concat"],
-          [n |-> 2, kind |-> "neglod"], [n |-> 2, kind |-> "concat"]}
+          [n |-> 2, kind |-> "neglod"], [n |-> 2, kind |-> "concat"], [n |-> 1, kind |-> "maxlod"], [n |-> 2, kind |-> "maxlod"]}
 ====
